@@ -9,6 +9,9 @@
 //!   enc <desc> <prefix|~>     an address value built through the API (prefix = hex of a bech32 HRP)
 //!   b58 <hex>                 Base58 codec on arbitrary bytes (hook H11)
 //!   b58d <hex of text>        Base58 decoder on arbitrary text (hook H11)
+//!   bech <hrp hex> <hex>      bech32 crate: to_base32, encode, decode, from_base32 (hook H12 pass-throughs)
+//!   bech5 <hrp hex> <u5 hex>  the same on arbitrary 5-bit symbols (padding errors of from_base32)
+//!   bechd <hex of text>       bech32::decode + from_base32 on arbitrary text
 //! Address description <desc> (no spaces):
 //!   base:<net>:<k|s>:<hash>:<k|s>:<hash>   ptr:<net>:<k|s>:<hash>:<slot>:<tx>:<cert>
 //!   ent:<net>:<k|s>:<hash>   rwd:<net>:<k|s>:<hash>
@@ -16,6 +19,7 @@
 //! Observations: `<summary> X=<value> ...`, documented next to the functions below; results are
 //! `ok:<desc>` / `err` / `panic`; hex "-" = empty, "~" = absent.
 use cardano_serialization_lib::legacy_address::verif_base58;
+use cardano_serialization_lib::verif_hooks_c12 as h12;
 use cardano_serialization_lib::*;
 use csl_verif_harness::util::*;
 
@@ -214,13 +218,13 @@ fn obs_enc(desc: &str, prefix: &str) -> String {
     let (m, _) = embedded(&t);
     let p = match a.to_bech32(None) { Ok(s) => hexd(split_hrp(&s).as_bytes()), Err(_) => "err".into() };
     let pf = if prefix == "~" { None } else { Some(String::from_utf8(unhex_or_dash(prefix)).unwrap()) };
-    let q = match a.to_bech32(pf) { Ok(s) => res_addr(Address::from_bech32(&s)), Err(_) => "none".into() };
+    let (bt, q) = match a.to_bech32(pf) { Ok(s) => (hexd(s.as_bytes()), res_addr(Address::from_bech32(&s))), Err(_) => ("none".into(), "none".into()) };
     let (x, z) = match ByronAddress::from_address(&a) {
         Some(b) => { let s = b.to_base58();
             (hexd(s.as_bytes()), match ByronAddress::from_base58(&s) { Ok(b2) => format!("ok:{}", byron_desc(&b2)), Err(_) => "err".into() }) }
         None => ("~".into(), "~".into()),
     };
-    format!("{} T={} D={} M={} A={} P={} Q={} X={} Z={}", short(&d), hexd(&t), d, m, acc_desc(&a), p, q, x, z)
+    format!("{} T={} D={} M={} A={} P={} B={} Q={} X={} Z={}", short(&d), hexd(&t), d, m, acc_desc(&a), p, bt, q, x, z)
 }
 fn obs_b58(bs: Vec<u8>) -> String {
     let s = verif_base58::encode(&bs);
@@ -233,6 +237,27 @@ fn obs_b58d(text: Vec<u8>) -> String {
     format!("{} O={}", if r.starts_with("ok") { "ok" } else { "err" }, r)
 }
 
+/// bech / bech5: U symbols, E text of bech32::encode, D bech32::decode of it, F from_base32 of the decoded symbols
+fn obs_bech5(hrp: &str, u5: Vec<u8>) -> String {
+    let text = h12::b32_encode(hrp, &u5);
+    let dec = text.as_ref().and_then(|s| h12::b32_decode(s));
+    let back = dec.as_ref().map(|(_, d)| match h12::b32_from_base32(d) { Some(b) => format!("ok:{}", hexd(&b)), None => "err".into() });
+    let summary = match (&text, &back) { (None, _) => "refused", (Some(_), Some(b)) if b.starts_with("ok") => "ok", _ => "pad" };
+    format!("{} U={} E={} D={} F={}", summary, hexd(&u5),
+            text.as_ref().map(|s| hexd(s.as_bytes())).unwrap_or("none".into()),
+            dec.as_ref().map(|(h, d)| format!("ok:{}:{}", hexd(h.as_bytes()), hexd(d))).unwrap_or("none".into()),
+            back.unwrap_or("~".into()))
+}
+fn obs_bech(hrp: &str, data: Vec<u8>) -> String { obs_bech5(hrp, h12::b32_to_base32(&data)) }
+fn obs_bechd(text: &str) -> String {
+    let dec = h12::b32_decode(text);
+    let back = dec.as_ref().map(|(_, d)| match h12::b32_from_base32(d) { Some(b) => format!("ok:{}", hexd(&b)), None => "err".into() });
+    format!("{} D={} F={}", if dec.is_some() { "ok" } else { "err" },
+            dec.as_ref().map(|(h, d)| format!("ok:{}:{}", hexd(h.as_bytes()), hexd(d))).unwrap_or("none".into()),
+            back.unwrap_or("~".into()))
+}
+fn utf8(h: &str) -> String { String::from_utf8(unhex_or_dash(h)).expect("utf-8 text in case") }
+
 fn run_case(toks: &[String]) -> String {
     let t: Vec<String> = toks.to_vec();
     guarded(move || match t[0].as_str() {
@@ -240,6 +265,9 @@ fn run_case(toks: &[String]) -> String {
         "enc" => obs_enc(&t[1], &t[2]),
         "b58" => obs_b58(unhex_or_dash(&t[1])),
         "b58d" => obs_b58d(unhex_or_dash(&t[1])),
+        "bech" => obs_bech(&utf8(&t[1]), unhex_or_dash(&t[2])),
+        "bech5" => obs_bech5(&utf8(&t[1]), unhex_or_dash(&t[2])),
+        "bechd" => obs_bechd(&utf8(&t[1])),
         _ => "bad-case".to_string(),
     })
 }
@@ -438,6 +466,64 @@ fn gen(dir: &str) {
         let mut s = vec![b'1'; z]; for _ in 0..n { s.push(*r.pick(ALPHA)); }
         if i % 6 == 0 && !s.is_empty() { let k = r.below(s.len() as u64) as usize; s[k] = *r.pick(&[b'0', b'O', b'I', b'l', b' ', 0xc3]); }
         emit(&mut out, format!("b58d {}", hexd(&s)));
+    }
+    // 6. the bech32 codec: every data length 0..100 x the prefixes the library uses and arbitrary ones,
+    //    arbitrary 5-bit symbols (padding rules), damaged texts
+    const LIB_HRPS: &[&str] = &["addr", "addr_test", "stake", "stake_test", "addr_malformed", "ed25519_sk", "ed25519_pk",
+        "ed25519e_sk", "xprv", "xpub", "script", "pool", "vrf_vk", "vrf_sk", "kes_vk", "asset", "drep", "cc_hot", "cc_cold", "a", "1", "11", "a1b"];
+    let rand_hrp = |r: &mut Rng| -> String {
+        match r.below(10) {
+            0 | 1 | 2 | 3 => r.pick(LIB_HRPS).to_string(),
+            4 => { let n = r.range(1, 12) as usize; (0..n).map(|_| (33 + r.below(94) as u8) as char).filter(|c| !c.is_ascii_uppercase()).collect::<String>() + "x" }
+            5 => { let n = r.range(1, 10) as usize; (0..n).map(|_| (b'A' + r.below(26) as u8) as char).collect() }            // upper case: lower-cased
+            6 => r.pick(&["", "Ab", "aB1", "a b", "a\u{7f}", "\u{e9}t\u{e9}", "a\u{20ac}"]).to_string(),                                 // refused
+            7 => "h".repeat(*r.pick(&[82usize, 83, 84, 90])),                                                                       // length limit 83
+            8 => { let n = r.range(1, 8) as usize; (0..n).map(|_| *r.pick(&['1', 'q', '0', '9', '_', '-', '~', '!'])).collect() }
+            _ => { let n = r.range(1, 20) as usize; (0..n).map(|_| (b'a' + r.below(26) as u8) as char).collect() }
+        }
+    };
+    let maxd = if thorough { 300 } else { 100 };
+    for len in 0..=maxd {
+        for k in 0..(if thorough { 6 } else { 3 }) {
+            let hrp = if k == 0 { LIB_HRPS[len % LIB_HRPS.len()].to_string() } else { rand_hrp(&mut r) };
+            let data = match (len + k) % 4 { 0 => vec![0u8; len], 1 => vec![0xffu8; len], _ => r.bytes(len) };
+            emit(&mut out, format!("bech {} {}", hexd(hrp.as_bytes()), hexd(&data)));
+        }
+    }
+    for i in 0..(if thorough { 2000 } else { 400 }) {
+        let hrp = rand_hrp(&mut r);
+        let n = r.below(if i % 10 == 0 { 200 } else { 40 }) as usize;
+        let mut u5: Vec<u8> = (0..n).map(|_| r.below(32) as u8).collect();
+        if i % 3 == 0 && n > 0 { u5[n - 1] = 0; }                       // more often a valid zero padding
+        emit(&mut out, format!("bech5 {} {}", hexd(hrp.as_bytes()), hexd(&u5)));
+    }
+    const B32: &[u8] = b"qpzry9x8gf2tvdw0s3jn54khce6mua7l";
+    for i in 0..(if thorough { 4000 } else { 800 }) {
+        // start from a valid text and damage it
+        let hrp = { let h = rand_hrp(&mut r); if h12::b32_encode(&h, &[]).is_some() { h } else { "addr".to_string() } };
+        let data = { let n = r.below(40) as usize; r.bytes(n) };
+        let mut s: Vec<u8> = h12::b32_encode(&hrp, &h12::b32_to_base32(&data)).unwrap().into_bytes();
+        let n = s.len();
+        let sep = s.iter().rposition(|c| *c == b'1').unwrap();
+        match i % 16 {
+            0 => {}                                                                        // untouched
+            1 => { let k = r.range(sep as u64 + 1, n as u64 - 1) as usize; let mut c = *r.pick(B32); while c == s[k] { c = *r.pick(B32); } s[k] = c }   // one wrong symbol
+            2 => { let k = r.range(sep as u64 + 1, n as u64 - 1) as usize; s[k] = *r.pick(&[b'b', b'i', b'o', b'1', b' ', b'_']) }         // not in the charset
+            3 => { s = s.to_ascii_uppercase() }                                            // all upper case: accepted
+            4 => { let k = r.range(sep as u64 + 1, n as u64 - 1) as usize; s[k] = s[k].to_ascii_uppercase(); if !s[k].is_ascii_uppercase() { s[n - 1] = s[n - 1].to_ascii_uppercase() } }  // mixed case
+            5 => { s.pop(); }                                                              // one symbol short
+            6 => { s.truncate(r.below(8) as usize) }                                       // shorter than 8
+            7 => { s.remove(sep); }                                                        // separator removed
+            8 => { let k = r.below(sep as u64) as usize; let c = s[k]; s[k] = if c.is_ascii_lowercase() { if c == b'z' { b'a' } else { c + 1 } } else { b'a' } }   // wrong HRP character
+            9 => { s.extend("\u{e9}".as_bytes()) }                                           // non-ASCII data character
+            10 => { s.truncate(sep + 1 + r.below(6) as usize) }                            // data part shorter than the checksum
+            11 => { s.insert(r.range(sep as u64 + 1, n as u64) as usize, *r.pick(B32)) }   // one symbol inserted
+            12 => { let k = r.range(sep as u64 + 1, n as u64 - 2) as usize; s.swap(k, k + 1) }   // two symbols swapped
+            13 => { for c in s[..sep].iter_mut() { *c = c.to_ascii_uppercase() } }          // upper-case HRP, lower-case data
+            14 => { s = s.iter().map(|c| if r.chance(1, 2) { c.to_ascii_uppercase() } else { *c }).collect() }
+            _ => { s = { let n = r.below(30) as usize; (0..n).map(|_| *r.pick(b"qpzry9x8gf2tvdw0s3jn54khce6mua7l1aAbB1 ")).collect() } }   // noise
+        }
+        emit(&mut out, format!("bechd {}", hexd(&s)));
     }
     out.finish();
 }
